@@ -121,18 +121,20 @@ inductive ModeArg where
 def fmtX (w : Nat) (n : Int) : List Char :=
   if n < 0 then '-' :: fmtHex (w - 1) n.natAbs else fmtHex w n.toNat
 
-/-- `mode if mode in MAP else MAP._hex(mode)` for an int/str mode (after the int -> "%02X" step) -/
+/-- `mode if mode in MAP else MAP._hex(mode)` for a str mode -/
+def normModeStr (fwd slugs names : List (String × String)) (t : List Char) : Py (List Char) :=
+  if inS (fwd.map (·.1)) t then .ok t
+  else match lookupS slugs t with
+    | some h => .ok h.toList
+    | none => match lookupS names t with
+      | some h => .ok h.toList
+      | none => .error .keyError
+
+/-- ... for a None / int / str mode (an int is first formatted `%02X`) -/
 def normMode (fwd slugs names : List (String × String)) : ModeArg → Option (List Char) → Py (List Char)
   | .none, dflt => match dflt with | some d => .ok d | none => .error .other
-  | .int n, _ => normMode fwd slugs names (.str (fmtX 2 n)) none
-  | .str t, _ =>
-    if inS (fwd.map (·.1)) t then .ok t
-    else match lookupS slugs t with
-      | some h => .ok h.toList
-      | none => match lookupS names t with
-        | some h => .ok h.toList
-        | none => .error .keyError
-termination_by m _ => match m with | .int _ => 1 | _ => 0
+  | .int n, _ => normModeStr fwd slugs names (fmtX 2 n)
+  | .str t, _ => normModeStr fwd slugs names t
 
 def getSystemMode (ctl : List Char) : Py Frame := fromAttrsDest vRQ ctl "2E04".toList Gen.domFF.toList
 def getSystemTime (ctl : List Char) : Py Frame := fromAttrsDest vRQ ctl "313F".toList "00".toList
